@@ -42,9 +42,13 @@ CHECKS = {
         "rule": ("per stream-oriented matcher and filter configuration (28 targets): a first message from the protocol's structure-aware generator "
                  "(one in four byte-mutated), optionally followed by arbitrary trailing bytes; EVERY prefix length 0..len(stream) is evaluated on a fresh "
                  "connection through MatcherSet.Match. Non-trivial = whole message matches and the prefix verdicts form >= 3 regions, or a mutated stream "
-                 "reaching 'no' after at least one 'need more'; distinct = distinct (matcher, config, stream)."),
+                 "reaching 'no' after at least one 'need more'; distinct = distinct (matcher, config, stream). Sets of two matchers are compared with the "
+                 "composition of their single verdicts on every prefix. Router level (metamorphic): 3-10 routes with the real protocol matchers in a generated order, "
+                 "optionally a stream-changing route in front (PROXY header stripped by the proxy_protocol handler, or k bytes taken), one stream delivered whole and in "
+                 "2-4 generated fragmentations (cuts early, around the header end, anywhere) must reach the same handler with the same bytes; judged only where at most one "
+                 "route behind the stream-changing one ever says yes on any prefix and keeps saying yes (others counted as excluded)."),
         "assumptions": ["datagram matchers (quic, wireguard, UDP dns/openvpn) are out of scope of the fragmentation clauses", "yes -> no when trailing bytes arrive is allowed (dns, rdp, winbox, openvpn do it on purpose)"],
-        "min_classes": {"quick": {"C06/full-match": 1500, "C06/mutated": 1000, "C06/matcher-set-of-two": 300}},
+        "min_classes": {"quick": {"C06/full-match": 1500, "C06/mutated": 1000, "C06/matcher-set-of-two": 300, "C06/routed/stream-changed-before-match": 150}},
         "runs": [
             {"name": "replay+rapid", "pkg": "./c06", "run": ".", "rapid_checks": {"quick": 400, "thorough": 40000},
              "shards": {"quick": 1, "thorough": 16}, "timeout": {"quick": 600, "thorough": 7200}},
@@ -125,12 +129,12 @@ CHECKS = {
     "C16": {
         "rule": ("generated handler configurations (command subsets in any case and via placeholders, default commands; credential maps with empty names, empty passwords, "
                  "placeholders, unset placeholders) x generated client byte scripts (version, method lists, user/pass sub-negotiation right/wrong/unknown/empty, command 0-255 "
-                 "samples, IPv4/domain/IPv6/garbage address types, truncations) through the real handler over loopback TCP with a loopback target listener. Oracle (safety): "
+                 "samples, IPv4/domain/IPv6/garbage address types, truncations) through the real handler over loopback TCP with a loopback target listener; in a third of the cases 0-2 other socks5 handlers with generated configurations of their own are provisioned before and after the handler under test. Oracle (safety): "
                  "target accepts / REP=0 / new UDP socket only if the configuration permits the command for that client. Non-trivial = credentials configured and a "
                  "syntactically valid request; distinct = distinct (config, session)."),
         "assumptions": ["the reference reading of the configuration comes from the handler's documentation: default commands CONNECT+ASSOCIATE, credentials with an empty (resolved) user name are unusable",
                         "BIND is answered 'command not supported' by the library even when enabled; only safety is judged"],
-        "min_classes": {"quick": {"C16/served": 25, "C16/must-refuse": 600, "C16/may-serve": 60}},
+        "min_classes": {"quick": {"C16/served": 25, "C16/must-refuse": 600, "C16/may-serve": 60, "C16/generated+siblings": 300}},
         "runs": [
             {"name": "sessions", "pkg": "./c16", "run": ".", "rapid_checks": {"quick": 500, "thorough": 20000},
              "shards": {"quick": 4, "thorough": 16}, "timeout": {"quick": 600, "thorough": 7200}},
@@ -139,12 +143,13 @@ CHECKS = {
     "C17": {
         "rule": ("generated throttle configurations: per-connection and/or total rate log-uniform 1 KB/s..1 MB/s, bursts 1 B..64 KiB or the handler default, latency 0..200 ms; "
                  "1..8 concurrent connections on one handler; reader buffers 1 B..64 KiB; streams of about burst + rate x 0.05..0.45 s; clients that have everything ready "
-                 "or trickle a few bytes every 5..60 ms. Every read on the underlying scripted connection is logged with its completion time. Oracle (one-sided): cumulative "
+                 "or trickle a few bytes every 5..60 ms; one case in ten configures bursts (1 B..4 KiB) and no rate, where no more than the burst may ever pass (1..4 "
+                 "connections, cancelled after 25 ms, delivered bytes must be a prefix of the stream). Every read on the underlying scripted connection is logged with its completion time. Oracle (one-sided): cumulative "
                  "bytes <= burst + rate x (t - first read attempt) per connection and summed for the total limit; first read not before entry + latency - 5 ms; bytes "
                  "delivered == stream. Non-trivial = stream > 2 x burst (>= 2 limiter waits) or >= 2 connections under a total limit; distinct = distinct case."),
         "assumptions": ["time is read after the observed read returned and the reference instant before the first read is attempted, so scheduling delay can only loosen the bound (no false 'too fast')",
                         "tolerance: 1 byte per connection + rate x 1 ms"],
-        "min_classes": {"quick": {"C17/per-connection-limit": 80, "C17/total-limit-shared": 30, "C17/latency": 50, "C17/trickling-client": 50}},
+        "min_classes": {"quick": {"C17/per-connection-limit": 80, "C17/total-limit-shared": 30, "C17/latency": 50, "C17/trickling-client": 50, "C17/burst-only": 10}},
         "runs": [
             {"name": "throttle", "pkg": "./c17", "run": ".", "rapid_checks": {"quick": 40, "thorough": 1500},
              "shards": {"quick": 8, "thorough": 16}, "timeout": {"quick": 600, "thorough": 7200}},
@@ -159,7 +164,7 @@ CHECKS = {
                  "failed matching, connection closed, late data reaches the matched handler. Non-trivial = sub-second timeout, non-zero phase or non-silent schedule."),
         "assumptions": ["upper time bounds are judged with slack >= 1 s and only if they reproduce three times in isolation; lower bounds are exact up to 5 ms",
                         "UDP cases use the virtual connection without the server loop (closing on failure is covered on the TCP path and in C09)"],
-        "min_classes": {"quick": {"C05/udp": 40, "C05/tcp": 80, "C05/schedule/trickle": 40, "C05/routes/subroute": 8, "C05/routes/match-then-slow": 8, "C05/routes/nonterminal-then-never": 8, "C05/routes/subroute-fallthrough-then-slow": 8}},
+        "min_classes": {"quick": {"C05/udp": 40, "C05/tcp": 80, "C05/schedule/trickle": 40, "C05/routes/subroute": 8, "C05/routes/match-then-slow": 8, "C05/routes/nonterminal-then-never": 8, "C05/routes/subroute-fallthrough-then-slow": 8, "C05/routes/consume-then-never": 8}},
         "runs": [
             {"name": "bounds", "pkg": "./c05", "run": ".", "rapid_checks": {"quick": 6, "thorough": 80},
              "shards": {"quick": 5, "thorough": 16}, "timeout": {"quick": 600, "thorough": 7200}},
@@ -191,7 +196,7 @@ CHECKS = {
                  "reports net.ErrClosed after Close and keeps doing so; no goroutine with a layer4.(*listener) frame after 5 s. Non-trivial = >= 2 outcome kinds with a "
                  "fall-through that carried prefetched bytes."),
         "assumptions": ["after an early close a pending connection may either be delivered once or be closed", "timing is only used as a bound on waiting, never as a verdict on its own"],
-        "min_classes": {"quick": {"C13/early-close": 20, "C13/slow-consumer": 40, "C13/delivered": 400}},
+        "min_classes": {"quick": {"C13/early-close": 20, "C13/slow-consumer": 40, "C13/no-consumer-until-close": 10, "C13/delivered": 400}},
         "runs": [
             {"name": "wrapper", "pkg": "./c13", "run": ".", "rapid_checks": {"quick": 40, "thorough": 2500},
              "shards": {"quick": 4, "thorough": 16}, "timeout": {"quick": 600, "thorough": 7200}},
@@ -201,11 +206,13 @@ CHECKS = {
         "rule": ("batches of 2-64 simultaneous tagged connections (arrival jitter 0-2 ms, streams straddling the 2 KiB pooled buffer, segmented or not) through ONE shared server "
                  "configuration on Server.serve over loopback TCP: echo, deep matcher, tee, subroute with a consuming handler, shared throttle limiter, proxy with each of the six "
                  "selection policies over a shared pool, a two-peer upstream whose peers both talk, the OpenVPN matcher in auth mode with varying digests; run at GOMAXPROCS 1, 2, 4 "
-                 "and 16, and the same workloads (<= 24 connections) under the Go race detector. Oracle: every connection gets back exactly its own stream as it would alone; any "
+                 "and 16, and the same workloads (<= 24 connections) under the Go race detector; likewise batches of 2-24 simultaneous UDP clients (1-5 datagrams of 16 B..9000 B "
+                 "each, most larger than one prefetch chunk) on Server.servePacket over an in-memory socket through echo, a 3000-byte-deep matcher, 64-byte throttled reads and "
+                 "a tee. Oracle: every connection gets back exactly its own stream as it would alone (UDP: every datagram sent to a client is the next bytes of its own stream); any "
                  "race report with a caddy-l4 frame is a violation. Non-trivial = >= 2 connections overlapping in time (measured); distinct = distinct batch. The listener-wrapper "
                  "hand-over under slow consumers is exercised by C13."),
         "assumptions": ["interleavings are sampled, not enumerated; the race detector only sees executed accesses"],
-        "min_classes": {"quick": {"C08/race-detector-run": 20, "C08/gomaxprocs/1": 10, "C08/gomaxprocs/16": 10, "C08/workload/proxy-two-peers": 20, "C08/workload/openvpn-auth-echo": 20, "C08/workload/tee-echo": 20}},
+        "min_classes": {"quick": {"C08/race-detector-run": 20, "C08/gomaxprocs/1": 10, "C08/gomaxprocs/16": 10, "C08/workload/proxy-two-peers": 20, "C08/workload/openvpn-auth-echo": 20, "C08/workload/tee-echo": 20, "C08/workload/tls-sni-a-echo": 20, "C08/workload/tls-sni-b-take1-echo": 20, "C08/workload/udp-small-reads-echo": 40, "C08/workload/udp-deep-match-echo": 40, "C08/udp-everything-echoed": 100}},
         "runs": [
             {"name": "crosstalk", "pkg": "./c08", "run": ".", "rapid_checks": {"quick": 40, "thorough": 3000}, "cpu": "1,2,4,16",
              "shards": {"quick": 1, "thorough": 8}, "timeout": {"quick": 600, "thorough": 7200}},
@@ -249,24 +256,28 @@ CHECKS = {
                  "handshake with an in-process server (ticket / PSK extensions); one in three hellos is mutated at byte level with lengths kept consistent (GREASE/unknown extensions "
                  "inserted, extension order permuted, an extension dropped, a second non-host name in the SNI list plus padding) and kept only if crypto/tls's server still accepts it. "
                  "Oracle (differential): the same bytes go to a crypto/tls server whose GetConfigForClient captures ClientHelloInfo; parse result, MatchTLS verdict with generated sni/alpn "
-                 "sub-matchers, placeholders, 'incomplete is undecided' and 'non-handshake never matches'. Non-trivial = SNI and >= 1 ALPN protocol, or resumption, or a restricted "
+                 "sub-matchers, placeholders, 'incomplete is undecided' and 'non-handshake never matches'; 2-12 such hellos are also matched at the same time, 5-40 rounds each, "
+                 "by ONE matcher instance (as the connections of one route are) and each must get its own server name and verdict. Non-trivial = SNI and >= 1 ALPN protocol, or resumption, or a restricted "
                  "version range; distinct = distinct (hello bytes, matcher config)."),
         "assumptions": ["a ClientHello split across several TLS records is out of scope (the matcher reads one record by design; crypto/tls never emits that below 16 KiB)",
                         "run with the default toolchain go1.23; hellos of a newer crypto/tls (post-quantum key shares) can be explored by running the thorough tier under go1.26.8"],
-        "min_classes": {"quick": {"C07/resumption-hello": 30, "C07/mutated-grease": 15, "C07/mutated-permuted": 15, "C07/verdict/true": 80, "C07/verdict/false": 80}},
+        "min_classes": {"quick": {"C07/resumption-hello": 30, "C07/mutated-grease": 15, "C07/mutated-permuted": 15, "C07/verdict/true": 80, "C07/verdict/false": 80, "C07/shared-matcher-concurrent": 100}},
         "runs": [
             {"name": "differential", "pkg": "./c07", "run": ".", "rapid_checks": {"quick": 120, "thorough": 20000},
              "shards": {"quick": 6, "thorough": 16}, "timeout": {"quick": 600, "thorough": 7200}},
+            # the same differential with the newer toolchain's crypto/tls (larger, post-quantum key shares) on both sides
+            {"name": "differential-go1.26", "pkg": "./c07", "run": ".", "go": "go1.26.8", "tiers": ("thorough",),
+             "rapid_checks": {"thorough": 5000}, "shards": {"thorough": 16}, "timeout": {"thorough": 7200}},
         ],
     },
     "C15": {
         "rule": ("an abstract configuration tree generated from the grammar on the UnmarshalCaddyfile doc comments and printed twice, as Caddyfile text and as the JSON it is documented to "
                  "mean: 1-2 global layer4 blocks with 1-2 servers each (1-2 listen addresses in several forms), matching_timeout, 0-3 named matcher sets of 1-3 matchers (all 19 matchers "
-                 "with their options; inline and block forms; `not` nested up to 2), defined before or after the routes that name them and reused, routes with 1-3 handlers (all 9 handlers "
-                 "with their options; subroute and tee nested up to depth 2), and the listener-wrapper form inside `servers { listener_wrappers { layer4 {...} } }`. Oracle: adapter output "
+                 "with their options, incl. the `private_ranges` shorthand and `!`-negated ranges of the ip matchers; inline and block forms; `not` nested up to 2), defined before or after the routes that name them and reused, routes with 1-3 handlers (all 9 handlers "
+                 "with their options, proxy upstreams in every documented form incl. `upstream <addr> { dial ... }`; subroute and tee nested up to depth 2), and the listener-wrapper form inside `servers { listener_wrappers { layer4 {...} } }`. Oracle: adapter output "
                  "== expected JSON (as JSON values), adapting twice is byte-identical, the JSON provisions (tls app loaded, files not needed), JSON -> App/ListenerWrapper -> JSON "
                  "reproduces it. Non-trivial = nesting >= 2 (subroute/tee/not) and a named set used twice; distinct = distinct Caddyfile text."),
-        "assumptions": ["options that need files (key files, CA pools, client certificates) and the `private_ranges` shorthand are not generated",
+        "assumptions": ["options that need files (key files, CA pools, client certificates) are not generated",
                         "the expected JSON is written from the documentation of each option, not from the adapter's code"],
         "min_classes": {"quick": {"C15/listener-wrapper": 300, "C15/several-global-blocks": 200, "C15/named-set-reused": 200, "C15/uses/openvpn": 50, "C15/uses/tee": 100}},
         "runs": [
